@@ -109,6 +109,16 @@ type world struct {
 	r     *explore.Run
 }
 
+func ptTemplates() []xrh.Template {
+	from := "spec.param"
+	req := v1.FromFieldPathPolicyRequired
+	pol := &v1.PatchPolicy{FromFieldPath: &req}
+	return []xrh.Template{
+		{Name: "a", GVK: xrh.ResA, Patches: []v1.Patch{{Type: v1.PatchTypeFromCompositeFieldPath, FromFieldPath: &from, ToFieldPath: &from, Policy: pol}}},
+		{Name: "b", GVK: xrh.ResB, Patches: []v1.Patch{{Type: v1.PatchTypeFromCompositeFieldPath, FromFieldPath: &from, ToFieldPath: &from, Policy: pol}}},
+	}
+}
+
 func setup(r *explore.Run, sc scenario) *world {
 	xrh.BeginExecution(7)
 	xrh.MapOrder(sc.order)
@@ -119,13 +129,7 @@ func setup(r *explore.Run, sc scenario) *world {
 	if sc.pipeline() {
 		comp = xrh.PipelineComposition("comp", "step1")
 	} else {
-		from := "spec.param"
-		req := v1.FromFieldPathPolicyRequired
-		pol := &v1.PatchPolicy{FromFieldPath: &req}
-		comp = xrh.ResourcesComposition("comp",
-			xrh.Template{Name: "a", GVK: xrh.ResA, Patches: []v1.Patch{{Type: v1.PatchTypeFromCompositeFieldPath, FromFieldPath: &from, ToFieldPath: &from, Policy: pol}}},
-			xrh.Template{Name: "b", GVK: xrh.ResB, Patches: []v1.Patch{{Type: v1.PatchTypeFromCompositeFieldPath, FromFieldPath: &from, ToFieldPath: &from, Policy: pol}}},
-		)
+		comp = xrh.ResourcesComposition("comp", ptTemplates()...)
 	}
 	xrh.SeedComposition(s, comp)
 	xr := xrh.XR("xr1", "comp")
@@ -178,6 +182,11 @@ func TestCheck(t *testing.T) {
 			scs = append(scs, scenario{composer: c, initial: in, order: 0, window: 2, bound: 1, reads: false, cache: "miss"})
 		}
 	}
+	// P&T: a template disappears from the Composition.
+	scs = append(scs,
+		scenario{composer: "pt", initial: "b-template-removed", order: 0, window: 2, bound: 2, reads: false},
+		scenario{composer: "pt", initial: "b-template-removed", order: 1, window: 3, bound: 1, reads: true},
+	)
 	rep.Bound("quiescence_horizon", horizon)
 	var list []report.Scenario
 	for _, sc := range scs {
@@ -251,6 +260,16 @@ func body(r *explore.Run, sc scenario, rep *report.R) {
 			s.Mutate(xrh.XRKey("xr1"), func(u *unstructured.Unstructured) {
 				unstructured.RemoveNestedField(u.Object, "spec", "param")
 			})
+		case "b-template-removed":
+			// P&T: the Composition loses template b (new revision): its
+			// composed resource is garbage collected by the next reconciles.
+			comp2 := xrh.ResourcesComposition("comp", ptTemplates()[:1]...)
+			s.Remove(simkube.ObjKey{Group: "apiextensions.crossplane.io", Kind: "Composition", Name: "comp"})
+			s.Seed(comp2)
+			s.Seed(xrh.Revision(comp2, 2))
+			s.Mutate(xrh.XRKey("xr1"), func(u *unstructured.Unstructured) {
+				unstructured.RemoveNestedField(u.Object, "spec", "compositionRevisionRef")
+			})
 		case "a-ctrl-stripped":
 			for _, o := range s.All(xrh.ResA.GroupKind()) {
 				s.Mutate(simkube.KeyOf(o), func(u *unstructured.Unstructured) { u.SetOwnerReferences(nil) })
@@ -319,7 +338,7 @@ func body(r *explore.Run, sc scenario, rep *report.R) {
 		got[o.GetAnnotations()["crossplane.io/composition-resource-name"]] = o.GetKind() + "/" + o.GetName()
 	}
 	want := []string{"a", "b"}
-	if !wantB && sc.pipeline() {
+	if (!wantB && sc.pipeline()) || sc.initial == "b-template-removed" {
 		want = []string{"a"}
 	}
 	for _, n := range want {
